@@ -740,3 +740,85 @@ class DatasetJoin(Contract):
 
     def canaries(self, S, case, env, result):
         yield "result-has-no-y-labels", S.n(result.axes["y"].values) == 0
+
+
+class DatasetConstruct(Contract):
+    """Dataset(a=A, b=B) for A over x and B over (x, y) with their OWN x labels: constructing a Dataset aligns its inputs first
+    (outer join) -- the result satisfies the shared-axes invariant; on the dataset's x axis every variable holds, at each
+    label it had, the cell it had there, and NaN at the labels only the other variable had; y is B's; the input arrays are
+    untouched.  The real bodies of Dataset.__init__ and align are executed; _get_aligned_axes and reindex_axis are used
+    through their contracts.  (That the x axis holds each label of either input once is AxisUnion's contract, C06.)  [C13]"""
+    target = "dimarray.dataset:Dataset"
+    props = ("C13",)
+    max_paths = 900
+
+    @property
+    def uses(self):
+        if not hasattr(self, "_u"):
+            from dverif.stubs import stub_of
+            from .align import ReindexAxis, GetAlignedAxes
+            self._u = (stub_of(ReindexAxis), stub_of(GetAlignedAxes))
+        return self._u
+
+    inlined = ("Dataset.__init__", "align (own contract: Align, C06)", "Dataset.__setitem__ (own contract)")
+
+    def cases(self, tier):
+        for form in ("kwargs", "dict"):
+            yield {"name": "a(x),b(x,y)-own-labels-%s" % form, "form": form}
+
+    bound_names = ("A.x.n", "B.x.n", "B.y.n")
+
+    def setup(self, S, case):
+        da = S.da
+        XA, XB, Y = S.array1d("A.x", "f"), S.array1d("B.x", "f"), S.array1d("B.y", "O")
+        for L in (XA, XB, Y):
+            assume_order(S, L, "unique")
+        A = da.DimArray(S.arraynd("A.data", "f", (S.n(XA),)), axes=[da.Axis(XA, "x")])
+        B = da.DimArray(S.arraynd("B.data", "f", (S.n(XB), S.n(Y))), axes=[da.Axis(XB, "x"), da.Axis(Y, "y")])
+        return {"A": A, "B": B, "XA": XA, "XB": XB, "Y": Y, "oldA": S.snapshot(A.values), "oldB": S.snapshot(B.values),
+                "axesA": list(A.axes), "axesB": list(B.axes)}
+
+    def call(self, fn, env):
+        Dataset = env["S"].da.Dataset
+        if env["case"]["form"] == "kwargs":
+            return Dataset(a=env["A"], b=env["B"])
+        return Dataset({"a": env["A"], "b": env["B"]})
+
+    def raises(self, S, case, env):
+        return {IndexError: False}
+
+    def known_regions(self, S, case, env):
+        # recorded open finding: reindex_axis from an EMPTY axis onto a non-empty one raises IndexError (phrased over the
+        # common axis the callee returned, as in Align)
+        calls = S.calls("GetAlignedAxes")
+        if calls:
+            cx = [ax.values for ax in calls[-1][3] if ax.name == "x"]
+            if cx:
+                return {"empty-source-axis": S.land(S.n(cx[0]) > 0, S.lor(S.n(env["XA"]) == 0, S.n(env["XB"]) == 0))}
+        return {"empty-source-axis": (len(env["XA"]) == 0) != (len(env["XB"]) == 0)} if not hasattr(env["XA"], "buf") else {}
+
+    def post(self, S, case, env, result):
+        from .common import absent
+        XA, XB, Y = env["XA"], env["XB"], env["Y"]
+        ok = sorted(dict.keys(result)) == ["a", "b"] and [ax.name for ax in result.axes] == ["x", "y"]
+        yield "variables-and-dimensions", ok
+        if not ok:
+            return
+        for c in ds_inv(S, result):
+            yield c
+        a, b = _var(result, "a"), _var(result, "b")
+        Xr, Yr = result.axes["x"].values, result.axes["y"].values
+        m, ny = S.n(Xr), S.n(Y)
+        yield "y-is-the-second-inputs", S.land(S.n(Yr) == ny, S.forall(0, ny, lambda j: S.implies(j < S.n(Yr), lambda: S.at(Yr, j) == S.at(Y, j))))
+        yield "a:cells-stay-at-their-labels", S.forall(0, m, lambda k: S.forall(0, S.n(XA), lambda p: S.implies(S.at(XA, p) == S.at(Xr, k), lambda: S.same(S.at(a.values, k), S.at(env["oldA"], p)))))
+        yield "a:nan-at-labels-it-did-not-have", S.forall(0, m, lambda k: S.implies(absent(S, XA, S.at(Xr, k)), lambda: S.isnan(S.at(a.values, k))))
+        yield "b:slices-stay-at-their-labels", S.forall_nd([m, ny], lambda k, j: S.forall(0, S.n(XB), lambda p: S.implies(S.at(XB, p) == S.at(Xr, k), lambda: S.same(S.at(b.values, k, j), S.at(env["oldB"], p, j)))))
+        yield "b:nan-at-labels-it-did-not-have", S.forall_nd([m, ny], lambda k, j: S.implies(absent(S, XB, S.at(Xr, k)), lambda: S.isnan(S.at(b.values, k, j))))
+        A, B = env["A"], env["B"]
+        yield "inputs-untouched", S.land(all(u is v for u, v in zip(A.axes, env["axesA"])), all(u is v for u, v in zip(B.axes, env["axesB"])),
+                                         A.axes[0].values is XA, B.axes[0].values is XB, B.axes[1].values is Y,
+                                         S.forall(0, S.n(XA), lambda p: S.same(S.at(A.values, p), S.at(env["oldA"], p))),
+                                         S.forall_nd([S.n(XB), ny], lambda p, j: S.same(S.at(B.values, p, j), S.at(env["oldB"], p, j))))
+
+    def canaries(self, S, case, env, result):
+        yield "x-axis-is-empty", S.n(result.axes["x"].values) == 0
